@@ -226,12 +226,29 @@ func manySmall(rt *rapid.T) ([]byte, string, string) {
 			kids = append(kids, &gen.Box{Type: "uuid", Data: append(append([]byte{}, gen.UUIDPreview...), 0, 0, 0, 0, 0, 0, 0, 1), Kids: []*gen.Box{{Type: "PRVW", Data: f}}})
 		case "iloc-boxes":
 			d := []byte{0x44, 0x00, 0xFF, 0xFF} // offset/length size 4, item_count 0xFFFF, no entries
+			if i%2 == 1 {
+				d = []byte{0x44, 0x00, 0x00, 0x01, 0x00, 0x01, 0x00, 0x00, 0xFF, 0xFF} // one item that declares 65535 extents, none present
+			}
 			kids = append(kids, &gen.Box{Type: "iloc", Full: true, Data: d})
 		case "cmt-boxes":
 			kids = append(kids, &gen.Box{Type: "CMT1", Data: []byte("II*\x00\x08\x00\x00\x00\x00\x00\x00\x00\x00\x00\x00\x00")})
 		default:
 			kids = append(kids, &gen.Box{Type: "uuid", Data: append(append([]byte{}, gen.UUIDXPacket...), []byte("<x:xmpmeta xmlns:x=\"adobe:ns:meta/\"/>")...)})
 		}
+	}
+	if kind == "preview-boxes" && n >= 200 && rapid.Bool().Draw(rt, "real-preview-first") {
+		// one honest large preview in front of the many empty ones: whatever is kept from one preview box to the next (a
+		// buffer, its capacity) is paid for again in every one of them
+		sz := rapid.SampledFrom([]int{100 << 10, 280 << 10, 400 << 10}).Draw(rt, "realpsz")
+		f := make([]byte, 16)
+		binary.BigEndian.PutUint16(f[4:], 1)
+		binary.BigEndian.PutUint16(f[6:], 1620)
+		binary.BigEndian.PutUint16(f[8:], 1080)
+		binary.BigEndian.PutUint16(f[10:], 1)
+		binary.BigEndian.PutUint32(f[12:], uint32(sz))
+		real := &gen.Box{Type: "uuid", Data: append(append([]byte{}, gen.UUIDPreview...), 0, 0, 0, 0, 0, 0, 0, 1), Kids: []*gen.Box{{Type: "PRVW", Data: append(f, bytes.Repeat([]byte{0xd5}, sz)...)}}}
+		kids = append([]*gen.Box{real}, kids...)
+		kind = "preview-boxes-after-a-real-one"
 	}
 	var top []*gen.Box
 	brand := "crx "
